@@ -452,3 +452,162 @@ func (pr *prover) callerProves(fn *ssa.Function, base ssa.Value, a, b term) stri
 	}
 	return fmt.Sprintf("holds at each of the %d places this helper is called from, with the arguments and captured variables of each", len(sites))
 }
+
+// calleeProves: the bound is computed by a helper of the module - `lo, hi := charRange(len(s), a, n)`,
+// `i, ok := r.selectBranch(ctx)` - and is proved inside that helper, at each of its returns: a result
+// component of the call stands for what that return hands back, an argument of the call (or its length, or a
+// field of it) for the corresponding parameter. Returns whose boolean component contradicts a test of the
+// same call's result that dominates the use are skipped (the `ok == false` return of an (index, ok) pair).
+func (pr *prover) calleeProves(fn *ssa.Function, in ssa.Instruction, a, b term) string {
+	var call *ssa.Call
+	pick := func(t term) {
+		if ex, ok := t.v.(*ssa.Extract); ok {
+			if c, ok := ex.Tuple.(*ssa.Call); ok {
+				call = c
+			}
+		} else if c, ok := t.v.(*ssa.Call); ok && c.Call.StaticCallee() != nil {
+			call = c
+		}
+	}
+	pick(a)
+	if call == nil {
+		pick(b)
+	}
+	if call == nil {
+		return ""
+	}
+	h := call.Call.StaticCallee()
+	if h == nil || !pr.p.InModule(h) || h.Blocks == nil || len(h.Params) != len(call.Call.Args) || h == fn {
+		return ""
+	}
+	// caller value -> callee value, at a given return
+	toCallee := func(t term, ret *ssa.Return) (term, bool) {
+		if t.v == nil {
+			return t, true
+		}
+		res := resultsOf(ret)
+		if ex, ok := t.v.(*ssa.Extract); ok && ex.Tuple == ssa.Value(call) {
+			if ex.Index >= len(res) {
+				return term{}, false
+			}
+			ct := norm(res[ex.Index])
+			ct.off += t.off
+			return ct, true
+		}
+		if t.v == ssa.Value(call) && len(res) == 1 {
+			ct := norm(res[0])
+			ct.off += t.off
+			return ct, true
+		}
+		// an argument itself
+		for j, arg := range call.Call.Args {
+			if arg == t.v || eqVal(arg, t.v) {
+				return term{h.Params[j], t.off}, true
+			}
+		}
+		// a length: of an argument, or of a field of an argument
+		var lx ssa.Value
+		if vl, ok := t.v.(virtualLen); ok {
+			lx = vl.x
+		} else {
+			lx = lenOperand(t.v)
+		}
+		if lx != nil {
+			for j, arg := range call.Call.Args {
+				if arg == lx || eqVal(arg, lx) {
+					lt := lenTermIn(h, h.Params[j])
+					lt.off += t.off
+					return lt, true
+				}
+				// field of the argument: find the same field read off the parameter in the callee
+				sameStruct := func(base, arg ssa.Value) bool {
+					if base == arg || eqVal(base, arg) || an.Deref(base) == an.Deref(arg) {
+						return true
+					}
+					// the argument is a copy loaded from the local the field is read from
+					if u, ok := arg.(*ssa.UnOp); ok && u.Op == token.MUL && u.X == base {
+						return true
+					}
+					return false
+				}
+				isParam := func(b2 ssa.Value, par *ssa.Parameter) bool {
+					if b2 == ssa.Value(par) || an.Deref(b2) == ssa.Value(par) {
+						return true
+					}
+					if al, ok := b2.(*ssa.Alloc); ok {
+						st := an.Stores(al)
+						return len(st) == 1 && st[0] == ssa.Value(par)
+					}
+					return false
+				}
+				if fld, base, ok := fieldRead(lx); ok && sameStruct(base, arg) {
+					var cv ssa.Value
+					an.EachInstr(h, func(in2 ssa.Instruction) {
+						if v2, isV := in2.(ssa.Value); isV && cv == nil {
+							if f2, b2, ok2 := fieldRead(v2); ok2 && f2 == fld && isParam(b2, h.Params[j]) {
+								cv = v2
+							}
+						}
+					})
+					if cv != nil {
+						lt := lenTermIn(h, cv)
+						lt.off += t.off
+						return lt, true
+					}
+				}
+			}
+		}
+		return term{}, false
+	}
+	// tests of the same call's boolean results that dominate the use
+	type want struct {
+		idx int
+		val bool
+	}
+	var wants []want
+	for _, g := range an.GuardsAtInstr(in) {
+		if ex, ok := g.Cond.(*ssa.Extract); ok && ex.Tuple == ssa.Value(call) {
+			wants = append(wants, want{ex.Index, g.True})
+		}
+	}
+	n := 0
+	ok := true
+	an.EachInstr(h, func(in2 ssa.Instruction) {
+		ret, isRet := in2.(*ssa.Return)
+		if !isRet || !ok {
+			return
+		}
+		res := resultsOf(ret)
+		for _, w := range wants {
+			if w.idx < len(res) {
+				if cb, isC := an.ConstBool(res[w.idx]); isC && cb != w.val {
+					return // this return is excluded by the caller's test
+				}
+			}
+		}
+		ta, ok1 := toCallee(a, ret)
+		tb, ok2 := toCallee(b, ret)
+		if !ok1 || !ok2 || !pr.le(ta, tb, point{blk: ret.Block()}, 0, map[[2]ssa.Value]bool{}) {
+			ok = false
+			return
+		}
+		n++
+	})
+	if ok && n > 0 {
+		return fmt.Sprintf("proved inside %s, which computes the bound, at each of its %d returns (those the caller's test of its result excludes apart)", an.FuncName(h), n)
+	}
+	return ""
+}
+
+// fieldRead: v reads field k of some value: Field(x, k) or *FieldAddr(x, k).
+func fieldRead(v ssa.Value) (int, ssa.Value, bool) {
+	switch x := v.(type) {
+	case *ssa.Field:
+		return x.Field, x.X, true
+	case *ssa.UnOp:
+		if fa, ok := x.X.(*ssa.FieldAddr); ok && x.Op == token.MUL {
+			return fa.Field, fa.X, true
+		}
+	}
+	return 0, nil, false
+}
